@@ -432,7 +432,12 @@ func c17ExecIn(t *testing.T, out *verifh.Out, sc *c17Script, e2e bool) []int64 {
 			}
 			now, has := o.connObservedTWAddrs[c]
 			if out != nil {
+				if had && (a.lb || a.n64 || a.relay || a.tw == "") {
+					out.Cover("rereport.unusable_class_on_credited_conn")
+				}
 				switch {
+				case had && !has:
+					out.Cover("record.previous_withdrawn_by_unusable_rereport")
 				case !had && has:
 					out.Cover("record.new")
 				case had && has && !prev.Equal(now):
@@ -739,6 +744,38 @@ func c17Gen(r *verifh.Rand, nops int, malformed bool) *c17Script {
 	return sc
 }
 
+// corpus: the history that /repo got wrong before "fix: observedaddrs: ..."
+// (a connection first makes a countable report, later re-reports an address
+// of a class that never counts; the earlier report stayed credited), once per
+// class, in direct and in event-bus mode
+func c17Corpus(t *testing.T) []*c17Script {
+	T := c17Build(t)
+	good := T.obsByStr["/ip4/2.2.2.1/tcp/2"]
+	var res []*c17Script
+	for _, bad := range []string{
+		"/ip4/127.0.0.1/tcp/2", "/ip6/64:ff9b::202:201/tcp/2", "/ip4/2.2.2.1/tcp/2/p2p-circuit",
+		"/dns4/example.com/tcp/2", "/ip4/2.2.2.1/udp/2/quic-v1", "/ip6/2a00::1/tcp/2",
+	} {
+		b, ok := T.obsByStr[bad]
+		if !ok || good.tw == "" {
+			t.Fatalf("c17 corpus: %s not in the universe", bad)
+		}
+		for _, e2e := range []bool{false, true} {
+			sc := &c17Script{e2e: e2e, thresh: 2, listen: []c17Addr{c17Locals[0]}, queries: []c17Addr{c17Locals[0]}}
+			for _, ip := range []string{"1.2.3.1", "1.2.3.2", "1.2.3.3"} {
+				sc.conns = append(sc.conns, c17ConnSpec{local: c17Locals[0], remoteIP: ip, port: 1000})
+			}
+			sc.ops = []c17Op{
+				{kind: 1, conn: 0, observed: good}, {kind: 1, conn: 1, observed: good},
+				{kind: 1, conn: 1, observed: b}, // conn 1 no longer reports `good`: one observer left
+				{kind: 1, conn: 2, observed: good}, {kind: 1, conn: 0, observed: b}, {kind: 3, conn: 2},
+			}
+			res = append(res, sc)
+		}
+	}
+	return res
+}
+
 func TestVerifNothing(t *testing.T) {}
 
 func TestVerifC17(t *testing.T) {
@@ -751,6 +788,10 @@ func TestVerifC17(t *testing.T) {
 	n := 3000
 	if verifh.Tier() == "thorough" {
 		n = 60000
+	}
+	for _, sc := range c17Corpus(t) {
+		out.Case(c17Exec(t, out, sc, sc.e2e))
+		out.Cover("cases.corpus")
 	}
 	for i := 0; i < n; i++ {
 		rr := r.Fork()
